@@ -950,7 +950,17 @@ class Interp:
             return bitop(op, a, b)
         if op in ('Shl', 'Shr', 'ShlUnchecked', 'ShrUnchecked'):
             if not is_const(b):
-                raise Unsupported('shift by symbolic amount %s' % show_term(b))
+                # a symbolic shift amount with a small range: enumerate it
+                cb_, tb_ = lin_of(b)
+                lo_, hi_ = st.know.interval(cb_, tb_)
+                if lo_ < 0 or hi_ - lo_ > 64:
+                    raise Unsupported('shift by symbolic amount %s' % show_term(b))
+                for v_ in range(lo_, hi_ + 1):
+                    if self.need(st, mk_cmp('Eq', b, K(width(b), v_))):
+                        b = K(width(b), v_)
+                        break
+                else:
+                    raise Infeasible()
             n = b[2] & (w - 1)
             if op.startswith('Shl'):
                 if a[0] == 'lin' and not signed:
